@@ -214,7 +214,7 @@ def run(res):
     thorough = res.tier == "thorough"
     bins = core.build([VARIANT])
     rng = core.rng_for(res.seed, "c18")
-    specs = gen_specs(rng, 900000 if thorough else 7000) + malformed(rng, 250000 if thorough else 1500)
+    specs = gen_specs(rng, 900000 if thorough else 120000) + malformed(rng, 250000 if thorough else 30000)
     items = []
     specs = [s for s in specs if sane(s)]
     def rand_int():
@@ -234,7 +234,7 @@ def run(res):
         return "".join(rng.choice("ab é日𝄞\t0{") for _ in range(rng.randint(0, 12)))
     for s in specs:
         k = rng.random()
-        wild = thorough and rng.random() < .5
+        wild = rng.random() < (.5 if thorough else .3)
         if k < .4:
             items.append((s, "int", rand_int() if wild else rng.choice(INTS)))
         elif k < .8:
